@@ -22,7 +22,7 @@ META = {
     "buys on the open bar and tries to trade on closed bars; z3 proves that closed-bar trades raise and change nothing, that nothing "
     "settles before expiry, that the position is settled exactly once on the first open bar at or after expiry with the oracle "
     "amounts, and that nothing changes afterwards.",
-    "bounds": ["one or two positions (call + put); strike 1650; underlying in [800, 3000], mark in [0, 0.5], contracts integer in [1, 5000]", "(b) 131 one-minute bars around the expiry (two open hourly bars before, the expiry bar, one after), <= 2 trade attempts on closed bars"],
+    "bounds": ["one or two positions (call + put); strike 1650; underlying in [800, 3000], mark in [0, 0.5], contracts integer in [1, 5000]", "(b) 131 one-minute bars around the expiry (two open hourly bars before, the expiry bar, one after), trade attempts from on_bar and after_bar of closed bars, with / without a further accepted trade issued from after_bar of the open bar (symbolic flag)"],
     "outside": ["option value in the fee rule: the statement does not say whether it is the mark value or the intrinsic value; either is accepted", "missing hourly rows (data gaps) at the expiry bar", "float rounding of S and mark (modelled as reals)"],
     "assumptions": ["float prices modelled as reals; quantize ROUND_HALF_UP modelled exactly"],
 }
